@@ -473,7 +473,7 @@ func (ex *Exec) RunSetup() {
 	ex.setup = false
 }
 
-var watchdog = 30 * time.Second
+var watchdog = 180 * time.Second
 
 // Run executes the declared threads under the schedule prefix, then default choices, until no
 // thread is enabled and no timer within the horizon is armed.
@@ -573,7 +573,7 @@ func (ex *Exec) Release() {
 		if !t.done {
 			select {
 			case t.gate <- true:
-			case <-time.After(2 * time.Second):
+			case <-time.After(30 * time.Second):
 			}
 		}
 	}
@@ -581,7 +581,7 @@ func (ex *Exec) Release() {
 	go func() { ex.wg.Wait(); close(done) }()
 	select {
 	case <-done:
-	case <-time.After(2 * time.Second):
+	case <-time.After(60 * time.Second):
 		Leaked++
 	}
 }
@@ -598,7 +598,7 @@ func Quiet(f func()) {
 	}()
 	select {
 	case <-done:
-	case <-time.After(2 * time.Second):
+	case <-time.After(60 * time.Second):
 		Leaked++
 	}
 }
